@@ -466,6 +466,55 @@ def catalogue(rng, limit=None):
         yield "catalogue:%s:%s/%s%s%s%s" % (scope, ca, cb, ":twin" if twin else "", ":T-first" if t_first else "", manual), m
 
 
+def marker_catalogue():
+    """identifiers and enumeration items repeated on either side of an extension marker: for SEQUENCE, SET, CHOICE (every
+    component carries its own context tag, so nothing but the names is at stake) and ENUMERATED, the pair of equal names / values
+    taken root+root, root+addition, addition+addition (neighbouring and not), and the twin without a repetition"""
+    k = 0
+    for tagdef in ("EXPLICIT", "AUTOMATIC"):
+        for kind in ("SEQUENCE", "SET", "CHOICE"):
+            for nroot, nadd in ((2, 2), (1, 3), (0, 2), (2, 0)):
+                n = nroot + nadd
+                pairs = [(i, j) for i in range(n) for j in range(i + 1, n)] + [None]
+                for pr in pairs:
+                    kinds = ["INTEGER", "BOOLEAN", "NULL", "IA5String", "OCTET STRING"]
+                    comps = []
+                    for i in range(n):
+                        t = Type(kinds[i])
+                        if tagdef != "AUTOMATIC":
+                            t.tag = ("C", i, None)
+                        c = Comp("m%d" % i, t)
+                        if kind != "CHOICE" and i >= nroot and i % 2:
+                            c.optional = True
+                        comps.append(c)
+                    if pr:
+                        comps[pr[1]].name = comps[pr[0]].name
+                    m = Module("X%d" % k, tagdef)
+                    k += 1
+                    m.add("T", Type(kind, comps=comps[:nroot], ext=comps[nroot:] if nadd else None))
+                    for t in m.types.values():
+                        _setmod(t, m)
+                    m.finalize()
+                    where = "none" if not pr else "+".join("root" if x < nroot else "add" for x in pr)
+                    yield "marker:%s:%s" % (kind, where), m
+    for items, ext in (([("a", 0), ("b", 1)], [("c", 2), ("d", 3)]), ([("a", 0)], [("b", 5), ("c", 6), ("d", 9)])):
+        allit = items + ext
+        for what in ("name", "value"):
+            for i in range(len(allit)):
+                for j in range(i + 1, len(allit)):
+                    its = [list(x) for x in allit]
+                    if what == "name":
+                        its[j][0] = its[i][0]
+                    else:
+                        its[j][1] = its[i][1]
+                    m = Module("X%d" % k, "EXPLICIT")
+                    k += 1
+                    m.add("T", Type("ENUMERATED", items=[tuple(x) for x in its[:len(items)]], ext_items=[tuple(x) for x in its[len(items):]]))
+                    m.finalize()
+                    where = "+".join("root" if x < len(items) else "add" for x in (i, j))
+                    yield "marker:ENUMERATED-%s:%s" % (what, where), m
+
+
 def inject_all(mod, rng, limit=8):
     """(family, text) of mutants that the model calls inconsistent -- for C10"""
     out = []
